@@ -40,7 +40,8 @@ MANIFEST = {
                   'lattice); handler-coverage rules on the client; name/signature parity of every '
                   'call on a service handle against the parsed .proto services; typed access paths '
                   'for error-detail arguments'
-                  '; handle_exception context argument check; transport transparency deny-rules (interceptors, per-call deadlines, load shedding)'),
+                  '; handle_exception context argument check; transport transparency deny-rules (interceptors, per-call deadlines, load shedding)'
+                  '; terminator-not-caught check on every guard site; class-discriminating handlers around algorithm calls'),
     'level_text': (
         'Static: the class of every error that can leave an RPC is the same in-process and over '
         'the wire, promised client exceptions are translated from both shapes, every call on a '
